@@ -89,12 +89,15 @@ theorem readAt_cat (pre a post : Bytes) (off : Int) (n : Nat) (h1 : off = pre.le
     simp [this]
   · simp [sl]
 
-theorem allocRead_cat (site cls : String) (pre a post : Bytes) (n off : Int) (h1 : off = pre.length) (h2 : n = a.length)
-    (h3 : a.length ≤ 2 ^ 48) : allocRead site cls (pre ++ (a ++ post)) n off = .ok a := by
+theorem allocRead_cat (fx : Bool) (site cls : String) (pre a post : Bytes) (n off : Int) (h1 : off = pre.length) (h2 : n = a.length)
+    (h3 : a.length ≤ 2 ^ 48) : allocRead fx site cls (pre ++ (a ++ post)) n off = .ok a := by
   unfold allocRead
   have hn : ¬ (n < 0 ∨ n > maxAlloc) := by unfold maxAlloc; omega
+  have hn' : ¬ (n < 0 ∨ n > ((pre ++ (a ++ post)).length : Int)) := by simp only [List.length_append]; omega
   have hr : readAt (pre ++ (a ++ post)) off n.toNat = some a := readAt_cat pre a post off n.toNat h1 (by omega)
-  simp [hn, hr]
+  cases fx
+  · simp [hn, hr]
+  · simp only [↓reduceIte, hn', hr]
 
 /-! ### `lastOffset` and the notary ticket -/
 
@@ -114,47 +117,66 @@ theorem lastOffset_le (B : Int) (hB : 0 ≤ B) : ∀ fs : List XFile, (∀ b ∈
     have h3 := lastOffset_le B hB rest fun b hb => h b (by simp [flatXs, flatX, hb])
     omega
 
-/-- the ticket step cannot fail when the last member ends at a sane place -/
-theorem readTicket_ok (f : Bytes) (fs : List XFile) (base : Int) (h0 : 0 ≤ base) (h1 : lastOffset fs + base < 2 ^ 62)
+theorem lastOffset_lt : ∀ fs : List XFile, lastOffset fs < 2 ^ 63
+  | [] => by simp [lastOffset]
+  | .mk a ks :: rest => by
+    simp only [lastOffset]
+    have h1 := lastOffset_lt ks
+    have h2 := lastOffset_lt rest
+    have h3 := w64_inI64 (a.offset + a.length)
+    unfold inI64 at h3
+    omega
+
+/-- the ticket step cannot fail on a file of sane size, wherever the last member is said to end (a wrapped-around position
+    never yields a trailer length between 1 and 999999) -/
+theorem readTicket_ok (f : Bytes) (fs : List XFile) (base : Int) (h0 : 0 ≤ base) (h1 : base < 2 ^ 62)
     (h2 : f.length < 2 ^ 62) : ∃ tk, readTicket f fs base = .ok tk := by
   unfold readTicket
   have hl := lastOffset_nonneg fs
-  have e1 : w64 (lastOffset fs + base) = lastOffset fs + base := w64_id (by unfold inI64; omega)
-  have e2 : w64 ((f.length : Int) - (lastOffset fs + base)) = (f.length : Int) - (lastOffset fs + base) :=
-    w64_id (by unfold inI64; omega)
-  simp only [e1, e2]
-  split
-  · rename_i hc
-    have hr : readAt f (lastOffset fs + base) ((f.length : Int) - (lastOffset fs + base)).toNat =
-        some (sl f (lastOffset fs + base).toNat ((f.length : Int) - (lastOffset fs + base)).toNat) := by
-      unfold readAt
-      have a1 : ¬ (lastOffset fs + base < 0) := by omega
-      have a2 : ¬ (((f.length : Int) - (lastOffset fs + base)).toNat = 0) := by omega
-      have a3 : (lastOffset fs + base).toNat + ((f.length : Int) - (lastOffset fs + base)).toNat ≤ f.length := by omega
-      simp [a1, a2, a3]
-    exact ⟨_, by rw [hr]⟩
-  · exact ⟨none, rfl⟩
+  have hu := lastOffset_lt fs
+  by_cases hc : lastOffset fs + base < 2 ^ 63
+  · have e1 : w64 (lastOffset fs + base) = lastOffset fs + base := w64_id (by unfold inI64; omega)
+    have e2 : w64 ((f.length : Int) - (lastOffset fs + base)) = (f.length : Int) - (lastOffset fs + base) :=
+      w64_id (by unfold inI64; omega)
+    simp only [e1, e2]
+    split
+    · rename_i hc
+      have hr : readAt f (lastOffset fs + base) ((f.length : Int) - (lastOffset fs + base)).toNat =
+          some (sl f (lastOffset fs + base).toNat ((f.length : Int) - (lastOffset fs + base)).toNat) := by
+        unfold readAt
+        have a1 : ¬ (lastOffset fs + base < 0) := by omega
+        have a2 : ¬ (((f.length : Int) - (lastOffset fs + base)).toNat = 0) := by omega
+        have a3 : (lastOffset fs + base).toNat + ((f.length : Int) - (lastOffset fs + base)).toNat ≤ f.length := by omega
+        simp [a1, a2, a3]
+      exact ⟨_, by rw [hr]⟩
+    · exact ⟨none, rfl⟩
+  · have e1 : w64 (lastOffset fs + base) = lastOffset fs + base - 2 ^ 64 := by unfold w64; omega
+    have e2 : ¬ (w64 ((f.length : Int) - (lastOffset fs + base - 2 ^ 64)) > 0 ∧
+        w64 ((f.length : Int) - (lastOffset fs + base - 2 ^ 64)) < 1000000) := by unfold w64; omega
+    simp only [e1, e2, ↓reduceIte]
+    exact ⟨none, rfl⟩
 
 /-! ### `Open` step by step -/
 
-theorem openPlan_eq (E : Env) (f : Bytes) (h : Hdr) (hk : HK) (z : Bytes) (tree : Xml) (n : Nat) (toc : XToc)
+theorem openPlan_eq (fx : Bool) (E : Env) (f : Bytes) (h : Hdr) (hk : HK) (z : Bytes) (tree : Xml) (n : Nat) (toc : XToc)
     (hp : parseHeader f = .ok (h, hk)) (hreg : regionSR f h.hsize h.clen = z) (hz : E.decode z = some (tree, n))
-    (hu : unmarshal E.num tree = some toc) :
-    openPlan E f = openBody E f hk z n toc (w64 (h.hsize + h.clen)) := by
-  unfold openPlan
+    (hu : unmarshal E.num tree = some toc) (hs : tocSizesOk h f.length = true) (hn : (n : Int) ≤ h.ulen) :
+    openPlanG fx E f = openBody fx E f hk z n toc (w64 (h.hsize + h.clen)) := by
+  unfold openPlanG
   rw [hp]
-  simp only [hreg, hz, hu]
+  have hn' : ¬ ((n : Int) > h.ulen) := by omega
+  simp only [hs, Bool.not_true, Bool.and_false, Bool.false_eq_true, ↓reduceIte, hreg, hz, hn', decide_false, hu]
 
-theorem openBody_eq (E : Env) (f : Bytes) (k : HK) (reg : Bytes) (n : Nat) (toc : XToc) (base : Int) (stored : Bytes)
+theorem openBody_eq (fx : Bool) (E : Env) (f : Bytes) (k : HK) (reg : Bytes) (n : Nat) (toc : XToc) (base : Int) (stored : Bytes)
     (hsz : toc.ck.size = k.size) (hck : readAt f (w64 (base + toc.ck.offset)) k.size = some stored) :
-    openBody E f k reg n toc base = ⟨[.hashEq "ckmismatch" k reg stored], openRest E f k stored toc base n⟩ := by
+    openBody fx E f k reg n toc base = ⟨[.hashEq "ckmismatch" k reg stored], openRest fx E f k stored toc base n⟩ := by
   unfold openBody
   simp only [hsz, ne_eq, not_true_eq_false, ↓reduceIte, hck]
 
-theorem openRest_eq (E : Env) (f : Bytes) (k : HK) (stored : Bytes) (toc : XToc) (base : Int) (n : Nat)
+theorem openRest_eq (fx : Bool) (E : Env) (f : Bytes) (k : HK) (stored : Bytes) (toc : XToc) (base : Int) (n : Nat)
     (sg : Option Bytes × List String) (x tk : Option Bytes)
-    (h1 : readSig E f base toc.sig = .ok sg) (h2 : readXSig f base toc.xsig = .ok x) (h3 : readTicket f toc.files base = .ok tk) :
-    openRest E f k stored toc base n =
+    (h1 : readSig fx E f base toc.sig = .ok sg) (h2 : readXSig fx f base toc.xsig = .ok x) (h3 : readTicket f toc.files base = .ok tk) :
+    openRest fx E f k stored toc base n =
       .ok ⟨k, stored, toc, base, sg.1, sg.2, x, tk, n + k.size + optLen sg.1 + optLen x + optLen tk⟩ := by
   unfold openRest
   rw [h1, h2, h3]
@@ -170,14 +192,14 @@ theorem layout_length (C : Crypto) (hH : ∀ k b, (C.H k b).length = k.size) (hk
     (layout C hk z u rsa cmsArea tail).length = 28 + z.length + hk.size + rsa.length + cmsArea.length + tail.length := by
   simp [layout, Hdr.enc_length, hH]; omega
 
-theorem open_layout (C : Crypto) (E : Env) (hH : ∀ k b, (C.H k b).length = k.size) (hk : HK) (ki : KeyInfo) (hki : ki.small)
+theorem open_layout (fx : Bool) (C : Crypto) (E : Env) (hH : ∀ k b, (C.H k b).length = k.size) (hk : HK) (ki : KeyInfo) (hki : ki.small)
     (z : Bytes) (u : Nat) (rsa cmsArea tail : Bytes) (tree : Xml) (n : Nat) (fs : List XFile)
     (hz : E.decode z = some (tree, n)) (hu : unmarshal E.num tree = some { tocOfKey hk ki with files := fs })
-    (hzl : z.length < 2 ^ 40) (hul : u < 2 ^ 63)
+    (hzl : z.length < 2 ^ 40) (hul : u ≤ 100000000) (hnu : n ≤ u)
     (hrsa : rsa.length = ki.rsaSize.getD 0) (hcms : (cmsArea.length : Int) = 6144 + ki.derTotal)
     (hc1 : ki.certTexts ≠ []) (hc2 : ∀ c ∈ ki.certTexts, E.certOk c = true)
-    (hL : lastOffset fs < 2 ^ 61) (hlen : (layout C hk z u rsa cmsArea tail).length < 2 ^ 62) :
-    ∃ tk, openPlan E (layout C hk z u rsa cmsArea tail) =
+    (hlen : (layout C hk z u rsa cmsArea tail).length < 2 ^ 62) :
+    ∃ tk, openPlanG fx E (layout C hk z u rsa cmsArea tail) =
       ⟨[.hashEq "ckmismatch" hk z (C.H hk z)],
        .ok ⟨hk, C.H hk z, { tocOfKey hk ki with files := fs }, 28 + z.length, ki.rsaSize.map (fun _ => rsa),
             (if ki.rsaSize.isSome then ki.certTexts else []), some cmsArea, tk,
@@ -185,7 +207,7 @@ theorem open_layout (C : Crypto) (E : Env) (hH : ∀ k b, (C.H k b).length = k.s
   have hs := hk.size_le
   obtain ⟨hd, hr⟩ := hki
   have hp : parseHeader (layout C hk z u rsa cmsArea tail) = .ok (newHdr hk z.length u, hk) :=
-    parseHeader_newHdr hk z.length u (by omega) hul _
+    parseHeader_newHdr hk z.length u (by omega) (by omega) _
   have hreg : regionSR (layout C hk z u rsa cmsArea tail) 28 (z.length : Int) = z := by
     have hnn : ¬ ((z.length : Int) < 0) := by omega
     unfold regionSR region
@@ -208,8 +230,12 @@ theorem open_layout (C : Crypto) (E : Env) (hH : ∀ k b, (C.H k b).length = k.s
     exact readAt_cat _ _ _ _ _ (by simp [Hdr.enc_length]) (by simp [hH])
   have hcl : cmsArea.length ≤ 2 ^ 48 := by omega
   -- the ticket
-  obtain ⟨tk, htk⟩ := readTicket_ok (layout C hk z u rsa cmsArea tail) fs (28 + (z.length : Int)) (by omega)
-    (by have := lastOffset_nonneg fs; omega) hlen
+  obtain ⟨tk, htk⟩ := readTicket_ok (layout C hk z u rsa cmsArea tail) fs (28 + (z.length : Int)) (by omega) (by omega) hlen
+  have hsz : tocSizesOk (newHdr hk z.length u) (layout C hk z u rsa cmsArea tail).length = true := by
+    have hl := layout_length C hH hk z u rsa cmsArea tail
+    simp only [tocSizesOk, newHdr, maxTOCSize, decide_eq_true_eq, hl]
+    omega
+  have hnu' : (n : Int) ≤ (newHdr hk z.length u).ulen := by simp only [newHdr]; omega
   refine ⟨tk, ?_⟩
   cases hrs : ki.rsaSize with
   | none =>
@@ -217,19 +243,19 @@ theorem open_layout (C : Crypto) (E : Env) (hH : ∀ k b, (C.H k b).length = k.s
       simpa [tocOfKey, hrs] using hu
     have hr0 : rsa = [] := List.length_eq_zero_iff.mp (by simp [hrsa, hrs])
     subst hr0
-    have hx : readXSig (layout C hk z u [] cmsArea tail) (28 + (z.length : Int))
+    have hx : readXSig fx (layout C hk z u [] cmsArea tail) (28 + (z.length : Int))
         (some ⟨"CMS", hk.size, 6144 + ki.derTotal, ki.certTexts⟩) = .ok (some cmsArea) := by
       have : layout C hk z u [] cmsArea tail = ((newHdr hk z.length u).enc ++ z ++ C.H hk z) ++ (cmsArea ++ tail) := by
         simp [layout, List.append_assoc]
       simp only [readXSig]
-      rw [this, allocRead_cat _ _ _ cmsArea tail _ _ (by
+      rw [this, allocRead_cat fx _ _ _ cmsArea tail _ _ (by
         rw [w64_id (by unfold inI64; omega)]; simp [Hdr.enc_length, hH]; omega) (by omega) hcl]
       rfl
     have hbase' : w64 (((newHdr hk z.length u).hsize : Int) + (newHdr hk z.length u).clen) = 28 + (z.length : Int) := hbase
-    rw [openPlan_eq E _ (newHdr hk z.length u) hk z tree n _ hp hreg hz hu', hbase',
-      openBody_eq E _ hk z n ⟨⟨hk.name, 0, hk.size, []⟩, none, some ⟨"CMS", hk.size, 6144 + ki.derTotal, ki.certTexts⟩, fs⟩
+    rw [openPlan_eq fx E _ (newHdr hk z.length u) hk z tree n _ hp hreg hz hu' hsz hnu', hbase',
+      openBody_eq fx E _ hk z n ⟨⟨hk.name, 0, hk.size, []⟩, none, some ⟨"CMS", hk.size, 6144 + ki.derTotal, ki.certTexts⟩, fs⟩
         (28 + (z.length : Int)) (C.H hk z) rfl hck,
-      openRest_eq E _ hk (C.H hk z) ⟨⟨hk.name, 0, hk.size, []⟩, none, some ⟨"CMS", hk.size, 6144 + ki.derTotal, ki.certTexts⟩, fs⟩
+      openRest_eq fx E _ hk (C.H hk z) ⟨⟨hk.name, 0, hk.size, []⟩, none, some ⟨"CMS", hk.size, 6144 + ki.derTotal, ki.certTexts⟩, fs⟩
         (28 + (z.length : Int)) n (none, []) (some cmsArea) tk rfl hx htk]
     simp [tocOfKey, hrs]
   | some m =>
@@ -238,12 +264,12 @@ theorem open_layout (C : Crypto) (E : Env) (hH : ∀ k b, (C.H k b).length = k.s
       simpa [tocOfKey, hrs] using hu
     have hm := hr m hrs
     have hrl : rsa.length = m := by simp [hrsa, hrs]
-    have hs1 : readSig E (layout C hk z u rsa cmsArea tail) (28 + (z.length : Int))
+    have hs1 : readSig fx E (layout C hk z u rsa cmsArea tail) (28 + (z.length : Int))
         (some ⟨"RSA", hk.size, m, ki.certTexts⟩) = .ok (some rsa, ki.certTexts) := by
       have : layout C hk z u rsa cmsArea tail = ((newHdr hk z.length u).enc ++ z ++ C.H hk z) ++ (rsa ++ (cmsArea ++ tail)) := by
         simp [layout, List.append_assoc]
       simp only [readSig]
-      rw [this, allocRead_cat _ _ _ rsa (cmsArea ++ tail) _ _ (by
+      rw [this, allocRead_cat fx _ _ _ rsa (cmsArea ++ tail) _ _ (by
         rw [w64_id (by unfold inI64; omega)]; simp [Hdr.enc_length, hH]; omega) (by omega) (by omega)]
       have h1 : ki.certTexts.isEmpty = false := by
         cases h : ki.certTexts with
@@ -251,19 +277,19 @@ theorem open_layout (C : Crypto) (E : Env) (hH : ∀ k b, (C.H k b).length = k.s
         | cons _ _ => rfl
       have h2 : ki.certTexts.all E.certOk = true := List.all_eq_true.mpr hc2
       simp [Res.bind, h1, h2]
-    have hx : readXSig (layout C hk z u rsa cmsArea tail) (28 + (z.length : Int))
+    have hx : readXSig fx (layout C hk z u rsa cmsArea tail) (28 + (z.length : Int))
         (some ⟨"CMS", hk.size + m, 6144 + ki.derTotal, ki.certTexts⟩) = .ok (some cmsArea) := by
       have : layout C hk z u rsa cmsArea tail = ((newHdr hk z.length u).enc ++ z ++ C.H hk z ++ rsa) ++ (cmsArea ++ tail) := by
         simp [layout, List.append_assoc]
       simp only [readXSig]
-      rw [this, allocRead_cat _ _ _ cmsArea tail _ _ (by
+      rw [this, allocRead_cat fx _ _ _ cmsArea tail _ _ (by
         rw [w64_id (by unfold inI64; omega)]; simp [Hdr.enc_length, hH]; omega) (by omega) hcl]
       rfl
     have hbase' : w64 (((newHdr hk z.length u).hsize : Int) + (newHdr hk z.length u).clen) = 28 + (z.length : Int) := hbase
-    rw [openPlan_eq E _ (newHdr hk z.length u) hk z tree n _ hp hreg hz hu', hbase',
-      openBody_eq E _ hk z n ⟨⟨hk.name, 0, hk.size, []⟩, some ⟨"RSA", hk.size, m, ki.certTexts⟩,
+    rw [openPlan_eq fx E _ (newHdr hk z.length u) hk z tree n _ hp hreg hz hu' hsz hnu', hbase',
+      openBody_eq fx E _ hk z n ⟨⟨hk.name, 0, hk.size, []⟩, some ⟨"RSA", hk.size, m, ki.certTexts⟩,
           some ⟨"CMS", hk.size + m, 6144 + ki.derTotal, ki.certTexts⟩, fs⟩ (28 + (z.length : Int)) (C.H hk z) rfl hck,
-      openRest_eq E _ hk (C.H hk z) ⟨⟨hk.name, 0, hk.size, []⟩, some ⟨"RSA", hk.size, m, ki.certTexts⟩,
+      openRest_eq fx E _ hk (C.H hk z) ⟨⟨hk.name, 0, hk.size, []⟩, some ⟨"RSA", hk.size, m, ki.certTexts⟩,
           some ⟨"CMS", hk.size + m, 6144 + ki.derTotal, ki.certTexts⟩, fs⟩ (28 + (z.length : Int)) n
         (some rsa, ki.certTexts) (some cmsArea) tk hs1 hx htk]
     simp [tocOfKey, hrs]
